@@ -68,8 +68,11 @@ Round3(W, r1, r2, strict) ==
   LET disq(j) == \/ ~Dv(W, j).commit
                  \/ Cardinality(r2.cf[j]) > W.t
                  \/ \E l \in r2.cf[j] : IF r2.ans[j][l].none THEN strict ELSE ~Valid(W, r1, j, l, r2.ans[j][l])
+      \* what a party keeps of a share that did not arrive or was out of range is the number 0 - an ordinary
+      \* value that is checked like any other when it is used later (in a tiny group it may even verify)
+      clip(s) == IF s.none THEN Sh(0, 0) ELSE IF s.a > -W.G.q /\ s.a < W.G.q THEN s ELSE Sh(0, s.h)
       held(l, j) == IF l \in r2.cf[j] /\ Valid(W, r1, j, l, r2.ans[j][l]) THEN r2.ans[j][l]
-                    ELSE IF l = j THEN r1.ts[j][j] ELSE r1.sent[j][l]
+                    ELSE IF l = j THEN r1.ts[j][j] ELSE clip(r1.sent[j][l])
   IN [qual |-> {j \in Parties(W) : ~disq(j)},
       held |-> [l \in Parties(W) |-> [j \in Parties(W) |-> held(l, j)]]]
 
